@@ -128,7 +128,11 @@ def check_call(out, desc, answer, arecs, grecs, objs, matches, cls, hit=False):
     else:
         want_d = []
     cand, dec = r.candidates, r.deciders
-    if cls != 'nop':
+    if cls != 'nop' and not (hasattr(cand, 'policies') and hasattr(dec, 'policies')):
+        # a message object that does not keep the policies themselves: judged by its text alone (below)
+        if want_d is None:
+            want_d = None if cls == 'count' else [p for p in want_c if _render(type(dec)([p])) == _render(dec)][:1] or None
+    elif cls != 'nop':
         got_c = list(cand.policies)
         got_d = list(dec.policies)
         if [id(p) for p in got_c] != [id(p) for p in want_c]:
@@ -259,7 +263,7 @@ def run(ctx):
             except proto.ProtoError:
                 continue
             got = None
-            if len(arecs) == 1 and cls != 'nop':
+            if len(arecs) == 1 and cls != 'nop' and hasattr(arecs[0].candidates, 'policies') and hasattr(arecs[0].deciders, 'policies'):
                 got = {'allow': arecs[0].effect == 'allow',
                        'cand': [proto.enc_value(p.uid) for p in arecs[0].candidates.policies],
                        'dec': [proto.enc_value(p.uid) for p in arecs[0].deciders.policies]}
@@ -387,6 +391,7 @@ def run(ctx):
                 'rendered text vs documented text; model audit (candidates/deciders by uid) compared; cached-guard '
                 'ask/mutate histories with hit/miss classification from cache.info(); non-trivial = >=1 matching policy')
     out.rule += '; plus guards constructed before the log levels are raised and the handlers attached'
+    out.rule += ' (plain and cached ones, the cached ones asked twice); message objects are judged by their text when they do not expose the policies; every record is rendered twice'
     return out
 
 
